@@ -289,7 +289,8 @@ class Spec(core.PropSpec):
                 for k in range(len(ops)):
                     if ro.random() < 0.25:
                         ops.insert(k, ["retune", ro.choice([0, 10, 50, 100])])
-        return dict(R=R, n=n, keys=keys, kind=rw.choice(KINDS), tf=tf, readers=readers,
+        kills = [[ro.randrange(1, R), ro.randint(1, 12)]] if R > 1 and ro.random() < 0.25 else []
+        return dict(R=R, n=n, keys=keys, kind=rw.choice(KINDS), tf=tf, readers=readers, kills=kills,
                     sched_seed=st("sched").getrandbits(32), choices=None)
 
     def shrink_candidates(self, plan):
@@ -301,6 +302,8 @@ class Spec(core.PropSpec):
             yield dict(plan, tf=None)
         if plan["kind"] != "int":
             yield dict(plan, kind="int")
+        if plan.get("kills"):
+            yield dict(plan, kills=[])
         yield from core.generic_candidates(plan, [["readers"], ["readers", "*"], ["choices"]], [(["n"], 1)])
 
     def execute(self, plan):
@@ -393,9 +396,13 @@ class Spec(core.PropSpec):
                         except Exception as e:
                             results[(r, k)] = ("exc", e)
                             LOG.append(["exc", f"r{r}", k, type(e).__name__])
+                        # (a killed reader leaves via TaskDied, a BaseException: its operation never returns)
                 return body
 
             sched = BatonScheduler(Chooser(seed=plan["sched_seed"], choices=plan.get("choices")))
+            for kr, kn in (plan.get("kills") or []):
+                if 1 <= kr < R:  # reader 0 owns the manager; killing it is a different story (the server would go too)
+                    sched.kill_at[f"r{kr}"] = kn
             for r in range(R):
                 sched.spawn(f"r{r}", make(r))
             SCHED[0] = sched
@@ -428,6 +435,8 @@ class Spec(core.PropSpec):
         n_disp = sum(1 for ops in readers for op in ops if op[0] == "dispose")
         if tf == "kd":
             out.tags.append("kd-transform-with-retuning")
+        if sched.killed:
+            out.count("fault:reader_process_killed_mid_operation", len(sched.killed))
         out.count("fault:dispose", n_disp)
         out.tags.append("multi-reader" if R > 1 else "single-reader")
         # did a dispose land between another reader's check and its read/store?
